@@ -104,7 +104,7 @@ def run(ctx, rep):
     write_nodes = [n for n in g.call_nodes(WRITE_RX)]
     send_nodes = g.call_nodes(r"callback::Callback::send$")
     rep.floor("R04.1", "File::sync_data/sync_all events in worker", len(sync_nodes), 1)
-    rep.floor("R04.1", "Callback::send events in worker", len(send_nodes), 2)
+    rep.floor("R04.1", "Callback::send events in worker", len(send_nodes), 1)
     rep.floor("R04.2", "write events in worker", len(write_nodes), 1)
 
     sync_true = r04_5(ctx, rep)
@@ -284,6 +284,29 @@ def run(ctx, rep):
     sl = min(sloops, key=lambda x: len(x[1]))
     batch_w = strip_ids(event_args(g, wl[0])[0])
     batch_s = strip_ids(event_args(g, sl[0])[0])
+
+    def skips_only_empty_data(e):
+        """`X.iter().filter(|w| !w.data.is_empty())`: the adaptor drops exactly the elements the plain loop would skip"""
+        if not (isinstance(e, tuple) and e and e[0] == "call" and re.search(r"iter::Iterator>?::filter$", e[1]) and len(e[2]) == 2):
+            return None
+        cl = e[2][1]
+        if not (isinstance(cl, tuple) and cl and cl[0] == "closure" and cl[1] in ctx.prog.bodies):
+            return None
+        b = ctx.prog.bodies[cl[1]]
+        calls = [blk["term"] for blk in b["blocks"] if blk["term"]["k"] == "call"]
+        if len(calls) != 1 or not re.search(r"Vec::<T, A>::is_empty$", calls[0]["callee"]["path"]):
+            return None
+        nots = [st for blk in b["blocks"] for st in blk["stmts"] if st["k"] == "assign" and st["rv"]["k"] == "unop" and st["rv"]["op"] == "Not"]
+        gcl = ctx.graph(cl[1])
+        arg = [strip_ids(x) for x in event_args(gcl, next(n for n in gcl.nodes if gcl.term(n)["k"] == "call"))]
+        if len(nots) == 1 and arg and is_field(arg[0], "data"):
+            return e[2][0]
+        return None
+    unf = skips_only_empty_data(batch_w)
+    if unf is not None:
+        rep.ok("R04.2", "write loop adaptor", "filter(|w| !w.data.is_empty()) over the batch: skips exactly the elements without bytes",
+               where=g.where(wl[0]), nontrivial=False)
+        batch_w = unf
     if batch_w != batch_s:
         rep.violation("R04.2", "%s|write-loop-and-callback-loop-differ" % ENT, "batch",
                       "the write loop iterates %s but the callback loop iterates %s" % (expr_s(batch_w), expr_s(batch_s)),
